@@ -1206,6 +1206,9 @@ theorem C14_source_shapes :
     -- connection slots: `wsAcquire` / `rstep .acquire`
     handler_conn_limit = ["limits.maxWSConnections > 0 ; !wsConnLimiter.Acquire()"] ∧
     connlimiter_acquire = ["l.limit > 0 && l.inUse >= l.limit"] ∧
+    -- one slot taken per connection, given back exactly once, when the handler returns (`Slots`: slots in use = sockets open)
+    handler_slot_acquire = ["limits.maxWSConnections > 0 ; !wsConnLimiter.Acquire()"] ∧
+    handler_slot_release = ["defer wsConnLimiter.Release()"] ∧
     -- message size and rate: `msgAccepted`, `Bucket.allow`
     handler_msg_size = ["maxMessageSize > 0 && len(message) > maxMessageSize"] ∧
     handler_msg_rate = ["limits.msgRatePerSec > 0 && !msgLimiter.Allow()"] ∧
